@@ -449,6 +449,10 @@ class Ovld:
             if self.linkback:
                 mixin.children.append(self)
         self.mixins += mixins
+        if mixins:
+            # If this ovld or a linked child is already in use, rebuild so that
+            # the new methods are visible
+            self._update()
 
     def _key_error(self, key, possibilities=None):
         typenames = sigstring(key)
